@@ -1110,7 +1110,12 @@ class Interp:
                     del recv[:args[0] + 1]
                 return ("Some", lst[args[0]]) if 0 <= args[0] < len(lst) else ("None",)
             if m == "skip" and args and isinstance(args[0], int):
+                if isinstance(recv, PyIter):
+                    del recv[:args[0]]          # a consuming iterator: the skipped items are gone for later reads as well
+                    return recv
                 return ("list", list(recv_list)[args[0]:])
+            if m == "as_str" and isinstance(recv, PyIter) and all(isinstance(x, tuple) and x[:1] == ("str",) for x in recv):
+                return ("str", "".join(x[1] for x in recv))          # Chars::as_str: the rest of the string
             if m == "take" and args and isinstance(args[0], int):
                 out = list(recv_list)[:args[0]]
                 if isinstance(recv, PyIter):
